@@ -55,35 +55,58 @@ def r1_paired_fields(ctx):
                 writers.setdefault(norm(n.func.value), set()).add(name)
     ctx.check(writers.get("self._keys", set()) <= {"__init__", "append", "__delitem__"} and writers.get("self._data", set()) <= {"__init__", "append", "__delitem__"}, PT,
               "ParameterTable", "only __init__, append and __delitem__ write the key list and the record dict", detail={k: sorted(v) for k, v in writers.items()})
+    from ..flowexpr import consistent, paths
     ap = ctx.fn(PT, "ParameterTable.append")
-    kb = _keyed_branch(ap)
-    if kb is None:
-        ctx.unrecognised(PT, "ParameterTable.append", "keyed branch", "`if self._keys is None` not found")
+    allp = paths(ap)
+    keyed, _ = consistent(allp, lambda e: {"self._keys is None": False, "self._keys is not None": True}.get(norm(e), True))
+    keyexprs = sorted({e.extra[len("self._data["):-1] for q in keyed for e in q.events if e.kind == "store" and str(e.extra).startswith("self._data[")})
+    key = keyexprs[0] if len(keyexprs) == 1 else "key"
+    cells, unk = {}, []
+    for new_key in (True, False):
+        def atom(e, _n=new_key):
+            return {"self._keys is None": False, "self._keys is not None": True, f"{key} not in self._keys": _n, f"{key} in self._keys": not _n}.get(norm(e))
+        ps, u = consistent(allp, atom)
+        unk += u
+        cells[new_key] = [q for q in ps if q.status != "raise"]
+    if unk or not cells[True] or not cells[False]:
+        ctx.unrecognised(PT, "ParameterTable.append", "keyed branch", f"paths of the keyed table not identified ({sorted(set(unk))[:2]})")
     else:
-        removes = [norm(x) for s in kb for x in ast.walk(s) if isinstance(x, ast.Call) and norm(x.func) in ("self._keys.remove", "self._keys.pop", "self._keys.insert")]
+        def calls(q, names):
+            return [norm(e.resolved) for e in q.events if e.kind == "expr" and isinstance(e.resolved, ast.Call) and norm(e.resolved.func) in names]
+        removes = sorted({c for qs in cells.values() for q in qs for c in calls(q, ("self._keys.remove", "self._keys.pop", "self._keys.insert", "self._keys.sort", "self._keys.reverse"))})
         ctx.check(not removes, PT, "ParameterTable.append", "overwriting a key keeps its position (the key list is not reordered)", detail=removes or None,
                   expected="the dict keeps the original position of an overwritten key, so must the key list")
-        adds = [s for s in kb if isinstance(s, ast.If) and any(norm(x) == "self._keys.append(key)" for x in s.body)]
-        unguarded = [s for s in kb if norm(s) == "self._keys.append(key)"]
-        ok = len(adds) == 1 and norm(adds[0].test) == "key not in self._keys" and not unguarded
-        ctx.check(ok, PT, "ParameterTable.append", "a key is added to the key list exactly when it is new", detail=[norm(a.test) for a in adds] + [norm(u) for u in unguarded],
+        add_new = [calls(q, ("self._keys.append",)) for q in cells[True]]
+        add_old = [calls(q, ("self._keys.append",)) for q in cells[False]]
+        ok = all(a == [f"self._keys.append({key})"] for a in add_new) and all(a == [] for a in add_old)
+        ctx.check(ok, PT, "ParameterTable.append", "a key is added to the key list exactly when it is new",
+                  detail={"new key": sorted({str(a) for a in add_new}), "existing key": sorted({str(a) for a in add_old})},
                   expected="if key not in self._keys: self._keys.append(key)")
-        stores = [norm(s) for s in kb if isinstance(s, ast.Assign) and norm(s.targets[0]) == "self._data[key]"]
-        ctx.check(len(stores) == 1, PT, "ParameterTable.append", "the record is stored under the key on the same path", detail=stores)
-        recs = [norm(s.value) for s in kb if isinstance(s, ast.Assign) and norm(s.targets[0]) == "settings"]
-        ctx.form(recs == ["ParameterSettings(dict(zip(self._settings, values)))"], PT, "ParameterTable.append", "the record pairs the declared fields with the values in order", detail=recs)
+        stores = [[norm(e.resolved) for e in q.events if e.kind == "store" and e.extra == f"self._data[{key}]"] for qs in cells.values() for q in qs]
+        ctx.check(all(len(x) == 1 for x in stores), PT, "ParameterTable.append", "the record is stored under the key on the same path", detail=sorted({str(x) for x in stores}))
+        import re as _re
+        ctx.form(all(len(x) == 1 and _re.fullmatch(r"ParameterSettings\(dict\(zip\(self\._settings, [\w\[\]]+\)\)\)", x[0]) for x in stores), PT, "ParameterTable.append",
+                 "the record pairs the declared fields with the values in order", detail=sorted({str(x) for x in stores}))
     de = ctx.fn(PT, "ParameterTable.__delitem__")
-    kb = _keyed_branch(de)
-    if kb is None:
-        ctx.unrecognised(PT, "ParameterTable.__delitem__", "keyed branch", "`if self._keys is None` not found")
+    arg = de.args.args[1].arg
+    ps, unk = consistent(paths(de), lambda e: {"self._keys is None": False, "self._keys is not None": True}.get(norm(e)))
+    if unk or not ps:
+        ctx.unrecognised(PT, "ParameterTable.__delitem__", "keyed branch", f"paths of the keyed table not identified ({sorted(set(unk))[:2]})")
     else:
-        b = [norm(s) for s in kb]
-        arg = de.args.args[1].arg
-        ctx.check(f"self._keys.remove({arg})" in b and f"del self._data[{arg}]" in b, PT, "ParameterTable.__delitem__", "a delete removes the key from the key list and the record from the dict",
+        b = sorted({norm(e.resolved) if e.kind == "expr" else "del " + norm(e.resolved) for q in ps for e in q.events if e.kind in ("expr", "delete")})
+        ok = all(any(e.kind == "expr" and norm(e.resolved) == f"self._keys.remove({arg})" for e in q.events) and
+                 any(e.kind == "delete" and norm(e.resolved) == f"self._data[{arg}]" for e in q.events) for q in ps)
+        ctx.check(ok, PT, "ParameterTable.__delitem__", "a delete removes the key from the key list and the record from the dict",
                   detail=b, expected=[f"self._keys.remove({arg})", f"del self._data[{arg}]"])
     gi = ctx.fn(PT, "ParameterTable.__getitem__")
-    src = norm(gi).replace("\n", " ")
-    ctx.check("if isinstance(key, int): return self._data[self._keys[key]]" in src, PT, "ParameterTable.__getitem__", "positional access goes through the key list")
+    k = gi.args.args[1].arg
+    ps, unk = consistent(paths(gi), lambda e: {"self._keys is None": False, "self._keys is not None": True, f"isinstance({k}, int)": True}.get(norm(e)))
+    rets = sorted({norm(e.resolved) for q in ps for e in q.events if e.kind == "return"})
+    if unk or not rets:
+        ctx.unrecognised(PT, "ParameterTable.__getitem__", "positional access goes through the key list", f"path for an integer index of a keyed table not identified ({sorted(set(unk))[:2]})")
+    else:
+        ctx.check(rets == [f"self._data[self._keys[{k}]]"], PT, "ParameterTable.__getitem__", "positional access goes through the key list", detail=rets,
+                  expected=f"self._data[self._keys[{k}]]")
     si = ctx.fn(PT, "ParameterTable.__setitem__")
     ctx.form("self.append(key, values)" in norm(si), PT, "ParameterTable.__setitem__", "item assignment is append (same paired update)")
     ks = ctx.fn(PT, "ParameterTable.keys")
@@ -222,32 +245,80 @@ def _cell_of(ctx, cls, tup, transpose):
     return _idx_form(tup.elts[1]), _idx_form(tup.elts[2]), None
 
 
+def _idx_form_v(node, ivar):
+    """int(I/self.X) | I//self.X -> ('div','X') ; int(I%self.X) | I%self.X -> ('mod','X') with I the loop's running index."""
+    if isinstance(node, ast.Call) and dotted_name(node.func) == "int" and len(node.args) == 1:
+        node = node.args[0]
+    if isinstance(node, ast.BinOp) and norm(node.left) == ivar and isinstance(node.right, ast.Attribute) and norm(node.right.value) == "self":
+        if isinstance(node.op, (ast.Div, ast.FloorDiv)):
+            return ("div", node.right.attr)
+        if isinstance(node.op, ast.Mod):
+            return ("mod", node.right.attr)
+    return None
+
+
+def _flat(tup):
+    out = []
+    for e in tup.elts:
+        if isinstance(e, ast.Starred) and isinstance(e.value, (ast.Tuple, ast.List)):
+            out.extend(_flat(e.value))
+        else:
+            out.append(e)
+    return out
+
+
 def r3_grid(ctx):
-    cls = ctx.repo.cls(PG, "DataPlotGrid")
+    """Decision table over (missing, transpose, kind of data): on the iteration paths consistent with a cell the
+    yielded tuple is resolved (helpers inlined, temporaries substituted) and its row/column terms are compared."""
+    from ..flowexpr import consistent, explore
     fn = ctx.fn(PG, "DataPlotGrid.items")
+    pa = [a.arg for a in fn.args.args]
+    p_missing, p_transpose = (pa[1], pa[2]) if len(pa) >= 3 else ("missing", "transpose")
+    ex = explore(fn)
     n = 0
     for missing in (True, False):
         for transpose in (True, False):
             for kind in (("any",) if missing else ("list", "dict")):
-                h = GridHandler(missing, transpose, kind)
                 cell = f"grid cell missing={missing} transpose={transpose} data={kind}"
-                try:
-                    run_block(fn.body, h)
-                    ys = [y for y in h.yields if y is not None]
-                    if len(ys) != 1:
-                        raise Unrecognised(f"{len(ys)} yields on this path")
-                    a, b, note = _cell_of(ctx, cls, ys[0], transpose)
-                except Unrecognised as e:
-                    ctx.unrecognised(PG, "DataPlotGrid.items", cell, str(e))
+
+                def atom(e, _m=missing, _t=transpose, _k=kind):
+                    return {p_missing: _m, p_transpose: _t, "isinstance(self.data, list)": _k == "list", "isinstance(self.data, dict)": _k == "dict"}.get(norm(e))
+                found, unk = [], []
+                for lp, start, its in ex.iterations.values():
+                    if not isinstance(lp, ast.For):
+                        continue
+                    ps, u = consistent(its, atom)
+                    unk += u
+                    for q in ps:
+                        ys = [e.resolved.value for e in q.events[start:] if e.kind == "expr" and isinstance(e.resolved, ast.Yield) and e.resolved.value is not None]
+                        lpe = [e for e in q.events[start - 1:start] if e.kind == "loop"]
+                        found.append((lp, q, ys, lpe))
+                if unk and not found:
+                    ctx.unrecognised(PG, "DataPlotGrid.items", cell, f"test not decided by the cell: {sorted(set(unk))[:2]}")
+                    continue
+                ok_found = [f for f in found if len(f[2]) == 1 and isinstance(f[2][0], ast.Tuple)]
+                if len(found) != 1 or len(ok_found) != 1:
+                    ctx.unrecognised(PG, "DataPlotGrid.items", cell, f"{len(found)} loop iterations consistent with the cell, {len(ok_found)} with exactly one yielded tuple")
+                    continue
+                lp, q, ys, lpe = ok_found[0]
+                elts = _flat(ys[0])
+                if len(elts) < 3:
+                    ctx.unrecognised(PG, "DataPlotGrid.items", cell, "yield has no (row, col)")
+                    continue
+                ivar = norm(elts[0])
+                a, b = _idx_form_v(elts[1], ivar), _idx_form_v(elts[2], ivar)
+                if a is None or b is None:
+                    ctx.unrecognised(PG, "DataPlotGrid.items", cell, f"row/column terms {norm(elts[1])[:60]} / {norm(elts[2])[:60]}")
                     continue
                 n += 1
                 want = (("mod", "nrows"), ("div", "nrows")) if transpose else (("div", "ncols"), ("mod", "ncols"))
-                ctx.check((a, b) == want, PG, "DataPlotGrid.items", cell, detail={"row": a, "col": b, "note": note}, expected={"row": want[0], "col": want[1]})
+                ctx.check((a, b) == want, PG, "DataPlotGrid.items", cell, detail={"row": a, "col": b}, expected={"row": want[0], "col": want[1]})
+                tgt = lp.target.elts[0] if isinstance(lp.target, ast.Tuple) else lp.target
                 if missing:
-                    ctx.check(h.ranges == ["range(self.ndata, self.ncols * self.nrows)"], PG, "DataPlotGrid.items", f"{cell}: empty cells are the indices after the data up to ncols*nrows",
-                              detail=h.ranges)
-                idx0 = norm(ys[0].elts[0]) if isinstance(ys[0], ast.Tuple) else None
-                ctx.check(idx0 == "i", PG, "DataPlotGrid.items", f"{cell}: the running index is reported first", detail=idx0)
+                    rng = [norm(e.resolved) for e in lpe]
+                    ctx.check(rng == ["range(self.ndata, self.ncols * self.nrows)"], PG, "DataPlotGrid.items", f"{cell}: empty cells are the indices after the data up to ncols*nrows",
+                              detail=rng)
+                ctx.check(isinstance(tgt, ast.Name) and ivar.startswith(tgt.id + "@loop"), PG, "DataPlotGrid.items", f"{cell}: the running index is reported first", detail=ivar.split("@")[0])
     ctx.floor("grid cells", n, 6)
     ini = ctx.fn(PG, "DataPlotGrid.__init__")
     s = [norm(x) for x in K.body_nodoc(ini)]
